@@ -1250,6 +1250,96 @@ def d11_fallback_key_always_found(chk: Check) -> None:
                      "added)")
 
 
+def d12_documents_compared_as_given(chk: Check) -> None:
+    """The Differ compares the two documents it is given -- the objects
+    themselves.  What kind of node a root is (Hash, Array, Set, scalar)
+    decides how it is compared, and that is read off its ruamel class.
+    Passing the basis document through a helper that "unwraps" it rebuilds
+    a sequence root as a plain list, which `_diff_between` then takes for a
+    scalar: the whole left document becomes one DELETE."""
+    prog = chk.prog
+    chk.rule("C06-D12", "Differ.__init__ stores its document parameter "
+             "unchanged, and compare_to hands its parameter to "
+             "_diff_between unchanged", floor=2)
+    init = prog.func("Differ.__init__")
+    stores = [a for a in walk_local(init.node)
+              if isinstance(a, (ast.Assign, ast.AnnAssign)) and
+              a.value is not None and src(
+                  a.targets[0] if isinstance(a, ast.Assign) else a.target)
+              == "self._data"]
+    docs = [x.id for a in stores for x in ast.walk(a.value)
+            if isinstance(x, ast.Name) and x.id in init.params()]
+    doc = docs[0] if docs else None
+    if not stores:
+        raise AnalysisError("Differ.__init__ does not store its document")
+    for a in stores:
+        text = "Differ.__init__: {}".format(src(a)[:60])
+        if src(a.value) == doc:
+            chk.ok("C06-D12", init, a, text, "the document as given")
+        else:
+            chk.fail("C06-D12", init, a, text,
+                     "the basis document is converted before it is kept: a "
+                     "root whose ruamel class is lost on the way (a "
+                     "sequence rebuilt as a plain list) is compared as a "
+                     "scalar")
+    cmp_ = prog.func("Differ.compare_to")
+    other = cmp_.params()[1]
+    calls = [c for c in walk_local(cmp_.node) if isinstance(c, ast.Call) and
+             src(c.func).endswith("_diff_between")]
+    if not calls:
+        raise AnalysisError("compare_to: _diff_between call not found")
+    for c in calls:
+        text = "compare_to: {}".format(src(c)[:60])
+        args = [src(a) for a in c.args]
+        if other in args and "self._data" in args:
+            chk.ok("C06-D12", cmp_, c, text, "both documents as held")
+        else:
+            chk.fail("C06-D12", cmp_, c, text,
+                     "the documents compared are not the stored basis and "
+                     "the parameter themselves")
+
+
+def d13_no_remembered_positions(chk: Check) -> None:
+    """`_diff_synced_lists` turns a DELETE followed by an ADD at the same
+    path into one CHANGE by removing the DELETE from the report.  The
+    position to remove is found by scanning the report *at that moment*.
+    A position remembered from when the DELETE was appended
+    (`at[k] = len(self._diffs)`) is stale as soon as an earlier entry has
+    been popped: the second conversion removes the wrong entry and an
+    element ends up in no entry at all."""
+    prog = chk.prog
+    chk.rule("C06-D13", "no position in the report list is stored for later "
+             "(`x[...] = len(self._diffs)` and the like) in a routine that "
+             "also removes entries from it by position", floor=1)
+    n = 0
+    for fi in prog.funcs_in("yamlpath/differ/differ.py"):
+        pops = [c for c in walk_local(fi.node) if isinstance(c, ast.Call) and
+                isinstance(c.func, ast.Attribute) and c.func.attr == "pop"
+                and src(c.func.value).startswith("self._") and c.args]
+        dels = [d for d in walk_local(fi.node) if isinstance(d, ast.Delete)
+                and any(isinstance(t, ast.Subscript) and
+                        src(t.value).startswith("self._") for t in d.targets)]
+        if not pops and not dels:
+            continue
+        n += 1
+        lst = src((pops[0].func.value if pops else dels[0].targets[0].value))
+        kept = [a for a in walk_local(fi.node) if isinstance(a, ast.Assign)
+                and isinstance(a.targets[0], ast.Subscript) and
+                "len({})".format(lst) in src(a.value)]
+        text = "{}: positions of {}".format(fi.short, lst)
+        if kept:
+            chk.fail("C06-D13", fi, kept[0], text,
+                     "`{}` remembers a position of {} although entries are "
+                     "removed from it by position later on: after the first "
+                     "removal every remembered position is off by one"
+                     .format(src(kept[0])[:50], lst))
+        else:
+            chk.ok("C06-D13", fi, (pops or dels)[0], text,
+                   "looked up when needed")
+    if n < 1:
+        raise AnalysisError("positional removals in differ.py: {}".format(n))
+
+
 def run(chk: Check) -> None:
     d1_entries(chk)
     d2_dispatch(chk)
@@ -1275,4 +1365,6 @@ def run(chk: Check) -> None:
                            chk.prog.funcs_in("yamlpath/differ/differ.py"), 10)
     d5_both_sides(chk)
     d11_fallback_key_always_found(chk)
+    d12_documents_compared_as_given(chk)
+    d13_no_remembered_positions(chk)
     d6_exit_and_ladders(chk)
